@@ -8,7 +8,7 @@
 From Coq Require Import ZArith NArith List Lia.
 From Arsenal Require Import Util Bits Gran Tlsf TlsfGeom TlsfInv1 TlsfStep TlsfProps SizeClass TlsfInv2 TlsfStep2 TlsfProps2 GranInv GranTlsf.
 From Arsenal Require Linear LinearInv LinearAlloc LinearFree LinearStep LinearSwap LinearVisit LinearProps.
-From Arsenal Require VamDev VamBlockList Vam VamInv VamInvMeta VamInvThm VamAcctThm VamBal VamBalThm VamNpThm VamFailProps VamRefused VamDefrag VamDefragThm VamDefragBal VamDefragNp.
+From Arsenal Require VamDev VamBlockList Vam VamInv VamInvMeta VamInvThm VamAcctThm VamBal VamBalThm VamNpThm VamFailProps VamRefused VamDefrag VamDefragThm VamDefragBal VamDefragNp VamKindThm.
 Import ListNotations.
 Open Scope Z_scope.
 
@@ -136,4 +136,15 @@ Theorem C13_allocator_never_panics_during_defrag : forall c v run G o f v' r cal
   step c v o f = (v', r, calls) -> r <> RPanic /\ r <> RStuck.
 Proof. intros c v run G o f v' r calls Ha. exact (VamDefragNp.step_never_panics_defrag c Ha v run G o f v' r calls). Qed.
 Print Assumptions C13_allocator_never_panics_during_defrag.
+(* The same WITHOUT any hypothesis on the state: reachDK = reachDB histories in which no Pool.Destroy is issued for
+   a pool under defragmentation and BeginDefragmentation gets the handle of a live pool; drun_exists: a context
+   exists for BeginDefragPass / EndDefragPass / Finish.  The remaining RStuck disjunct is the model gap described
+   above (a vkMapMemory failure inside BeginDefragPass), not a panic. *)
+Theorem C13_allocator_defrag_never_panics : forall c v run G o f v' run' r calls dr,
+  cfg_acct c -> VamKindThm.reachDK c v run G -> VamDefragThm.dop_ok v run o -> VamDefragBal.dop_bal G run o ->
+  VamKindThm.drun_exists run o -> Vam.dstep c v run o f = (v', run', r, calls, dr) ->
+  r <> RPanic /\
+  (r = RStuck -> o = DPass /\ exists mem off size code, code <> 0 /\ List.In (CMap mem off size code) calls).
+Proof. intros c v run G o f v' run' r calls dr Ha. exact (VamKindThm.dstep_never_panics_full c Ha v run G o f v' run' r calls dr). Qed.
+Print Assumptions C13_allocator_defrag_never_panics.
 End Allocator.
